@@ -141,6 +141,29 @@ func GenerateGRPC(r *lp.Rng, index int) *Design {
 					}
 				}
 			}
+			// every fourth design: the request message is spelt out with Message(...) (all attributes that do not travel
+			// as metadata), and the attributes of user type are required — requiredness comes from the payload only
+			if index%4 == 1 && m.Payload != nil && isInlineObject(m.Payload) && m.Stream != "payload" && m.Stream != "both" {
+				md := map[string]bool{}
+				for _, x := range m.GRPC.Metadata {
+					md[x.Attr] = true
+				}
+				for _, f := range m.Payload.Type.Object {
+					if md[f.Name] || len(f.Att.Type.OneOf) > 0 {
+						continue
+					}
+					m.GRPC.Message = append(m.GRPC.Message, f.Name)
+					if f.Att.Type.Ref != "" {
+						already := false
+						for _, rq := range m.Payload.Required {
+							already = already || rq == f.Name
+						}
+						if !already {
+							m.Payload.Required = append(m.Payload.Required, f.Name)
+						}
+					}
+				}
+			}
 			// response headers / trailers: primitive result attributes
 			if m.Result != nil && isInlineObject(m.Result) && m.Stream == "" && r.Intn(2) == 0 {
 				for k, f := range m.Result.Type.Object {
